@@ -354,8 +354,8 @@ package reftable
 //@   ensures result1 == nil ==> len(result0.restartBytes) == 3*result0.restartCount + 2
 //@   ensures result1 == nil ==> result0.fullBlockSize > 0
 //@   ensures result1 == nil ==> wfBR(result0)
-//@   ensures result1 == nil ==> typeOK(result0)
 //@   ensures result1 == nil ==> result0.block[headerOff] == old(block[headerOff]) && len(block) >= headerOff + 4
+//@   ensures result1 == nil ==> typeOK(result0)
 //@   ensures result1 != nil ==> result0 == nil
 
 //@ func (*blockReader).getType
